@@ -150,34 +150,40 @@ Section Spec.
     match o with Some c => eval_all (fun c => ev j l c) [c] | None => Some [] end.
 
   (** array applicators: prefixItems / items / contains (draft-07: items array / additionalItems) *)
-  Definition spec_arrays (e : env) (ev : efun) (l : loc) (s : schema) (items : list json) : option (bool * list nat) :=
-    let d7 := e_draft7 e in
+  Definition ar_prefix_list (e : env) (s : schema) : list schema :=
+    if e_draft7 e then olist (s_itemsArray s) else olist (s_prefixItems s).
+  Definition ar_prefix_name (e : env) : str := if e_draft7 e then lit "items"%lit else lit "prefixItems"%lit.
+  Definition ar_rest_schema (e : env) (s : schema) : option (str * schema) :=
+    if e_draft7 e
+    then match s_itemsArray s with
+         | Some _ => option_map (fun c => (lit "additionalItems"%lit, c)) (s_additionalItems s)
+         | None => option_map (fun c => (lit "items"%lit, c)) (s_items s)
+         end
+    else option_map (fun c => (lit "items"%lit, c)) (s_items s).
 
+  (* pairwise, until either list ends *)
+  Definition ar_prefix (e : env) (ev : efun) (l : loc) (s : schema) (items : list json) : option (list (bool * sigma)) :=
+    eval_all (fun xc => ev (fst xc) (ch_i l (ar_prefix_name e) (fst (snd xc))) (snd (snd xc)))
+             (combine items (idx_list (ar_prefix_list e s))).
+  Definition ar_rest (e : env) (ev : efun) (l : loc) (s : schema) (items : list json) : option (list (bool * sigma)) :=
+    match ar_rest_schema e s with
+    | Some (name, c) => eval_all (fun x => ev x (ch l name) c) (skipn (length (ar_prefix_list e s)) items)
+    | None => Some []
+    end.
+  Definition ar_contains (ev : efun) (l : loc) (s : schema) (items : list json) : option (option (list (bool * sigma))) :=
+    match s_contains s with
+    | Some c => option_map (fun rs => Some rs) (eval_all (fun x => ev x (ch l (lit "contains"%lit)) c) items)
+    | None => Some None
+    end.
+
+  Definition spec_arrays (e : env) (ev : efun) (l : loc) (s : schema) (items : list json) : option (bool * list nat) :=
     let n := length items in
-    let prefix := if d7 then olist (s_itemsArray s) else olist (s_prefixItems s) in
-    let prefix_name := if d7 then lit "items"%lit else lit "prefixItems"%lit in
-    let rest := if d7 then (match s_itemsArray s with
-                            | Some _ => option_map (fun c => (lit "additionalItems"%lit, c)) (s_additionalItems s)
-                            | None => option_map (fun c => (lit "items"%lit, c)) (s_items s)
-                            end)
-                else option_map (fun c => (lit "items"%lit, c)) (s_items s) in
+    let prefix := ar_prefix_list e s in
     let np := Nat.min (length prefix) n in
-    match
-      (* pairwise, until either list ends *)
-      eval_all (fun xc => ev (fst xc) (ch_i l prefix_name (fst (snd xc))) (snd (snd xc)))
-               (combine items (idx_list prefix)),
-      (match rest with
-       | Some (name, c) => eval_all (fun x => ev x (ch l name) c) (skipn (length prefix) items)
-       | None => Some []
-       end),
-      (match s_contains s with
-       | Some c => option_map (fun rs => Some rs) (eval_all (fun x => ev x (ch l (lit "contains"%lit)) c) items)
-       | None => Some None
-       end)
-    with
+    match ar_prefix e ev l s items, ar_rest e ev l s items, ar_contains ev l s items with
     | Some r_prefix, Some r_rest, Some r_contains =>
         let i_prefix := seq 0 np in
-        let i_rest := match rest with Some _ => seq (length prefix) (n - length prefix) | None => [] end in
+        let i_rest := match ar_rest_schema e s with Some _ => seq (length prefix) (n - length prefix) | None => [] end in
         let matched := match r_contains with
                        | Some rs => map fst (filter (fun ir => fst (snd ir)) (combine (seq 0 n) rs))
                        | None => []
@@ -196,40 +202,47 @@ Section Spec.
 
   (** object applicators: properties, patternProperties, additionalProperties, propertyNames,
       dependentSchemas (draft-07: schema-valued dependencies) *)
+  Definition ob_p_props (s : schema) (m : list (str * json)) : list str :=
+    filter (fun k => match lookup k (olist (s_properties s)) with Some _ => true | None => false end) (keys m).
+  Definition ob_p_pats (s : schema) (m : list (str * json)) : list str :=
+    filter (fun k => existsb (fun pc => re_match (fst pc) k) (olist (s_patternProperties s))) (keys m).
+  Definition ob_additional (s : schema) (m : list (str * json)) : list (str * json) :=
+    filter (fun kv => negb (mem_str (fst kv) (ob_p_props s m)) && negb (mem_str (fst kv) (ob_p_pats s m))) m.
+  Definition ob_deps (e : env) (s : schema) : list (str * schema) :=
+    if e_draft7 e then olist (s_dependencySchemas s) else olist (s_dependentSchemas s).
+  Definition ob_deps_name (e : env) : str := if e_draft7 e then lit "dependencies"%lit else lit "dependentSchemas"%lit.
+
+  Definition ob_ev_props (ev : efun) (l : loc) (s : schema) (m : list (str * json)) : option (list (bool * sigma)) :=
+    eval_all (fun kc => match lookup (fst kc) m with
+                        | Some v => ev v (ch_k l (lit "properties"%lit) (fst kc)) (snd kc)
+                        | None => Some (true, sig0)
+                        end) (olist (s_properties s)).
+  Definition ob_ev_pats (ev : efun) (l : loc) (s : schema) (m : list (str * json)) : option (list (bool * sigma)) :=
+    eval_all (fun kv => option_map (fun rs => (all_true rs, sig0))
+                          (eval_all (fun pc => if re_match (fst pc) (fst kv)
+                                               then ev (snd kv) (ch_k l (lit "patternProperties"%lit) (fst pc)) (snd pc)
+                                               else Some (true, sig0)) (olist (s_patternProperties s)))) m.
+  Definition ob_ev_add (ev : efun) (l : loc) (s : schema) (m : list (str * json)) : option (list (bool * sigma)) :=
+    match s_additionalProperties s with
+    | Some c => eval_all (fun kv => ev (snd kv) (ch l (lit "additionalProperties"%lit)) c) (ob_additional s m)
+    | None => Some []
+    end.
+  Definition ob_ev_names (ev : efun) (l : loc) (s : schema) (m : list (str * json)) : option (list (bool * sigma)) :=
+    match s_propertyNames s with
+    | Some c => eval_all (fun kv => ev (JStr (fst kv)) (ch l (lit "propertyNames"%lit)) c) m
+    | None => Some []
+    end.
+  Definition ob_ev_deps (e : env) (ev : efun) (j : json) (l : loc) (s : schema) (m : list (str * json)) : option (list (bool * sigma)) :=
+    eval_all (fun kc => if has_key m (fst kc) then ev j (ch_k l (ob_deps_name e) (fst kc)) (snd kc) else Some (true, sig0))
+             (ob_deps e s).
+
   Definition spec_objects (e : env) (ev : efun) (j : json) (l : loc) (s : schema) (m : list (str * json))
     : option (bool * sigma * sigma) :=
-    let d7 := e_draft7 e in
-
-    let props := olist (s_properties s) in
-    let pats := olist (s_patternProperties s) in
-    let p_props := filter (fun k => match lookup k props with Some _ => true | None => false end) (keys m) in
-    let p_pats := filter (fun k => existsb (fun pc => re_match (fst pc) k) pats) (keys m) in
-    let additional := filter (fun kv => negb (mem_str (fst kv) p_props) && negb (mem_str (fst kv) p_pats)) m in
-    let deps := if d7 then olist (s_dependencySchemas s) else olist (s_dependentSchemas s) in
-    let deps_name := if d7 then lit "dependencies"%lit else lit "dependentSchemas"%lit in
-    match
-      eval_all (fun kc => match lookup (fst kc) m with
-                          | Some v => ev v (ch_k l (lit "properties"%lit) (fst kc)) (snd kc)
-                          | None => Some (true, sig0)
-                          end) props,
-      eval_all (fun kv => option_map (fun rs => (all_true rs, sig0))
-                            (eval_all (fun pc => if re_match (fst pc) (fst kv)
-                                                 then ev (snd kv) (ch_k l (lit "patternProperties"%lit) (fst pc)) (snd pc)
-                                                 else Some (true, sig0)) pats)) m,
-      (match s_additionalProperties s with
-       | Some c => eval_all (fun kv => ev (snd kv) (ch l (lit "additionalProperties"%lit)) c) additional
-       | None => Some []
-       end),
-      (match s_propertyNames s with
-       | Some c => eval_all (fun kv => ev (JStr (fst kv)) (ch l (lit "propertyNames"%lit)) c) m
-       | None => Some []
-       end),
-      eval_all (fun kc => if has_key m (fst kc) then ev j (ch_k l deps_name (fst kc)) (snd kc) else Some (true, sig0)) deps
-    with
+    match ob_ev_props ev l s m, ob_ev_pats ev l s m, ob_ev_add ev l s m, ob_ev_names ev l s m, ob_ev_deps e ev j l s m with
     | Some r_props, Some r_pats, Some r_add, Some r_names, Some r_deps =>
-        let p_add := match s_additionalProperties s with Some _ => keys additional | None => [] end in
+        let p_add := match s_additionalProperties s with Some _ => keys (ob_additional s m) | None => [] end in
         Some (all_true r_props && all_true r_pats && all_true r_add && all_true r_names && all_true r_deps,
-              mkSigma (p_props ++ p_pats ++ p_add) [], sig_of_true r_deps)
+              mkSigma (ob_p_props s m ++ ob_p_pats s m ++ p_add) [], sig_of_true r_deps)
     | _, _, _, _, _ => None
     end.
 
